@@ -61,7 +61,19 @@ func (t tweakOpt) keyAgg() []musig2.KeyAggOption {
 	return nil
 }
 
+// sign returns the functional options in one of the two possible orders (tweak option first or last): the
+// result must not depend on it.
 func (t tweakOpt) sign(sort bool) []musig2.SignOption {
+	o := t.sign1(sort)
+	if optFlip = !optFlip; optFlip && len(o) == 2 {
+		o[0], o[1] = o[1], o[0]
+	}
+	return o
+}
+
+var optFlip bool
+
+func (t tweakOpt) sign1(sort bool) []musig2.SignOption {
 	var o []musig2.SignOption
 	if sort {
 		o = append(o, musig2.WithSortedKeys())
@@ -198,6 +210,8 @@ func execMusig(op string, a []string) string {
 		return fmt.Sprintf("s=%s r=%x", scalarHex(ps.S), ps.R.SerializeCompressed())
 	case op == "ctx" && len(a) == 4:
 		return ctxSession(a[0] == "1", msg32(unhex(a[1])), parseTweakOpt(a[2]), a[3])
+	case op == "ctx2" && len(a) == 4:
+		return ctxSession2(msg32(unhex(a[1])), parseTweakOpt(a[2]), a[3])
 	case op == "pverify" && len(a) == 8:
 		var s btcec.ModNScalar
 		if s.SetByteSlice(unhex(a[0])) {
@@ -211,7 +225,7 @@ func execMusig(op string, a []string) string {
 		return b01(ps.Verify(nonce66(unhex(a[1])), nonce66(unhex(a[2])), parseKeys(a[3]), pk, msg32(unhex(a[5])),
 			parseTweakOpt(a[7]).sign(a[6] == "1")...))
 	}
-	return "bad-op"
+	return execExtra(op, a)
 }
 
 func session(sort bool, msg [32]byte, tw tweakOpt, signersS string) string {
@@ -267,6 +281,16 @@ func session(sort bool, msg [32]byte, tw tweakOpt, signersS string) string {
 		yv = append(yv, b01(p1.Verify(pubNonces[i], aggNonce, copyKeys(keys), signers[i].pub, msg, tw.sign(sort)...)))
 	}
 	final := musig2.CombineSigs(ps[0].R, ps, tw.combine(msg, copyKeys(keys), sort)...)
+	// results are values: everything observed earlier must read the same after all later calls
+	stable := head == fmt.Sprintf("agg=%x nonce=%x", agg.FinalKey.SerializeCompressed(), aggNonce[:])
+	for i, p := range ps {
+		stable = stable && ss[i] == scalarHex(p.S) && bytes.Equal(pubNonces[i][:], signers[i].nonce.PubNonce[:])
+	}
+	agg2, _, _, err2 := musig2.AggregateKeys(copyKeys(keys), sort, tw.keyAgg()...)
+	stable = stable && err2 == nil && agg2.FinalKey.IsEqual(agg.FinalKey) && agg2.PreTweakedKey.IsEqual(agg.PreTweakedKey)
+	if !stable {
+		head = "UNSTABLE " + head
+	}
 	return fmt.Sprintf("%s s=%s pv=%s xv=%s yv=%s sig=%x v=%s", head, strings.Join(ss, ","), strings.Join(pv, ","),
 		strings.Join(xv, ","), strings.Join(yv, ","), final.Serialize(), b01(final.Verify(msg[:], agg.FinalKey)))
 }
@@ -737,6 +761,8 @@ func genMusig(g *core.Gen) {
 		g.Case(fmt.Sprintf("musig:n=%d", n), true, "C11 musig "+line)
 		if i%2 == 0 {
 			g.Case(fmt.Sprintf("ctx:n=%d", n), true, "C11 ctx "+line)
+		} else {
+			g.Case(fmt.Sprintf("ctx2:n=%d", n), true, "C11 ctx2 "+line)
 		}
 	}
 }
